@@ -172,6 +172,8 @@ type c07g struct {
 	clash     []c07bind
 	wantIO    bool
 	ioTop     map[*Module]map[string]bool // top-level names input/output taken in a module's tree
+	// groupings that define no data node (c07barren.go)
+	barren map[*Node]bool
 }
 
 // ioName: a fresh name, or with probability p one of the names input / output (only for a node
